@@ -119,6 +119,7 @@ class World:
         self.S = [1.0 / (1.0 + w ** 2) for w in self.W]
         self.traceless = bool(make_pulse().basis.istraceless)
         self.pauli = make_pulse().basis.btype == 'Pauli' and make_pulse().d == 2
+        self.btype_pauli = make_pulse().basis.btype == 'Pauli'
         self.nqubits = int(round(np.log2(make_pulse().d)))
         self._ud = {}
 
@@ -142,12 +143,28 @@ class World:
             self._ud[key] = np.array(v)
         return self._ud[key].copy()
 
-    def partner(self, g):
-        """a second pulse with the same noise operators, everything cached for grid g"""
-        q = self.make()
-        q.cache_filter_function(self.W[g].copy())
-        q.total_propagator_liouville
+    def partner(self, g, extra=False):
+        """a second pulse with the same noise operators (extra: and one more), everything cached for grid g
+        (g None: nothing cached)"""
+        p = self.fresh()
+        n = [[o, c, i] for o, c, i in zip(p.n_opers, p.n_coeffs, p.n_oper_identifiers)]
+        if extra:
+            op = np.zeros((p.d, p.d), dtype=complex)
+            op[0, -1], op[-1, 0] = -1j, 1j
+            n.append([op, np.ones(len(p.dt)), 'extra'])
+        q = ff.PulseSequence(list(zip(p.c_opers, p.c_coeffs, p.c_oper_identifiers)), n, p.dt, basis=p.basis)
+        if g is not None:
+            q.cache_filter_function(self.W[g].copy())
+            q.total_propagator_liouville
         return q
+
+    def grid_index(self, omega):
+        if omega is None:
+            return None
+        for k, w in enumerate(self.W):
+            if np.array_equal(w, omega):
+                return k
+        return None
 
 
 def occupancy(p):
@@ -168,6 +185,15 @@ def wrong(a):
     return np.asarray(a) * 1.75 + 0.125
 
 
+def user_array(a, kind):
+    """what the caller passes: the correct array, wrong values, or an array of the wrong shape"""
+    if kind == 'UBad':
+        return wrong(a)
+    if kind == 'UShape':
+        return np.asarray(a)[..., :-1]
+    return a
+
+
 def apply_op(world, p, op):
     """execute one op of the alphabet on pulse p; returns the value (or None)"""
     W, S = world.W, world.S
@@ -184,8 +210,7 @@ def apply_op(world, p, op):
             cm = world.user('cm', g)
             if user[1]:
                 cm = np.stack([0.25 * cm, 0.75 * cm])
-            if not user[0]:
-                cm = wrong(cm)
+            cm = user_array(cm, user[0])
         p.cache_control_matrix(W[g].copy(), cm, cache_intermediates=ci)
         return None
     if name == 'GetPCCM':
@@ -200,12 +225,9 @@ def apply_op(world, p, op):
             cm = world.user('cm', g)
             if cmu[1]:
                 cm = np.stack([0.25 * cm, 0.75 * cm])
-            if not cmu[0]:
-                cm = wrong(cm)
+            cm = user_array(cm, cmu[0])
         if ffu is not None:
-            fu = world.user('ff', g, w, o)
-            if not ffu:
-                fu = wrong(fu)
+            fu = user_array(world.user('ff', g, w, o), ffu)
         p.cache_filter_function(W[g].copy(), control_matrix=cm, filter_function=fu, which=wh(w), order=od(o),
                                 cache_intermediates=ci)
         return None
@@ -219,9 +241,7 @@ def apply_op(world, p, op):
         g, user = a
         v = None
         if user is not None:
-            v = world.user('phases', g)
-            if not user:
-                v = wrong(v)
+            v = user_array(world.user('phases', g), user)
         p.cache_total_phases(W[g].copy(), v)
         return None
     if name == 'Diagonalize':
@@ -268,17 +288,28 @@ def apply_op(world, p, op):
         return ff.error_transfer_matrix(p, S[g], W[g].copy(), second_order=second, cache_intermediates=ci)
     if name == 'InfidelityDerivative':
         return ff.gradient.infidelity_derivative(p, S[a[0]], W[a[0]].copy())
-    if name == 'ConcatInput':
-        ff.concatenate([p, world.partner(a[0])], omega=W[a[0]].copy(), calc_filter_function=True)
+    if name == 'AsConcatInput':
+        go, last, early, missing = a
+        other = world.partner(go, extra=missing)
+        pulses = [other, p] if last else [p, other]
+        ff.concatenate(pulses, omega=None if go is None else W[go].copy(), calc_filter_function=False if early else True)
         return None
-    if name == 'ExtendInput':
-        assert world.pauli
-        ff.extend([(p, 0), (world.partner(a[0]), 1)], omega=W[a[0]].copy(), cache_filter_function=True)
-        return None
-    if name == 'PeriodicInput':
+    if name == 'AsPeriodicInput':
         ff.concatenate_periodic(p, 2)
         return None
-    if name == 'RemapInput':
+    if name == 'AsExtendInput':
+        go, diag, allc = a
+        assert world.pauli
+        if go is not None:
+            other = world.partner(go)
+        else:
+            k = world.grid_index(p._omega)
+            other = world.partner(k if (allc and k is not None) else (0 if allc else None))
+        ff.extend([(p, 0), (other, 1)], N=2, omega=None if go is None else W[go].copy(), cache_diagonalization=diag,
+                  cache_filter_function=True if go is not None else None)
+        return None
+    if name == 'AsRemapInput':
+        assert a[0] == world.btype_pauli
         ff.remap(p, tuple(range(world.nqubits)))
         return None
     if name == 'PropagatorAt':
@@ -364,7 +395,8 @@ def copt(x, f):
 def coq_op(world, op):
     name, a = op[0], op[1:]
     G = lambda g: cgrid(world, g)
-    pair = lambda u: '(%s,%s)' % (cb(u[0]), cb(u[1]))
+    pair = lambda u: '(%s,%s)' % (u[0], cb(u[1]))
+    ident = lambda u: u
     if name in ('GetCM',):
         return '(GetCM %s %s)' % (G(a[0]), cb(a[1]))
     if name == 'CacheCM':
@@ -372,13 +404,19 @@ def coq_op(world, op):
     if name == 'GetFF':
         return '(GetFF %s %s %s %s)' % (G(a[0]), a[1], a[2], cb(a[3]))
     if name == 'CacheFF':
-        return '(CacheFF %s %s %s %s %s %s)' % (G(a[0]), copt(a[1], pair), copt(a[2], cb), a[3], a[4], cb(a[5]))
+        return '(CacheFF %s %s %s %s %s %s)' % (G(a[0]), copt(a[1], pair), copt(a[2], ident), a[3], a[4], cb(a[5]))
     if name == 'GetPCFF':
         return '(GetPCFF %s)' % a[0]
-    if name in ('GetDeriv', 'GetPhases', 'InfidelityDerivative', 'ConcatInput', 'ExtendInput'):
+    if name == 'AsConcatInput':
+        return '(AsConcatInput %s %s %s %s)' % (copt(a[0], G), cb(a[1]), cb(a[2]), cb(a[3]))
+    if name == 'AsExtendInput':
+        return '(AsExtendInput %s %s %s)' % (copt(a[0], G), cb(a[1]), cb(a[2]))
+    if name == 'AsRemapInput':
+        return '(AsRemapInput %s)' % cb(a[0])
+    if name in ('GetDeriv', 'GetPhases', 'InfidelityDerivative'):
         return '(%s %s)' % (name, G(a[0]))
     if name == 'CachePhases':
-        return '(CachePhases %s %s)' % (G(a[0]), copt(a[1], cb))
+        return '(CachePhases %s %s)' % (G(a[0]), copt(a[1], ident))
     if name == 'LazyProp':
         return '(LazyProp %s)' % a[0]
     if name == 'Cleanup':
@@ -393,7 +431,7 @@ def coq_op(world, op):
         return '(Cumulant %s %s %s %s)' % (G(a[0]), a[1], cb(a[2]), copt(a[3], cb))
     if name == 'ErrorTransferMatrix':
         return '(ErrorTransferMatrix %s %s %s)' % (G(a[0]), cb(a[1]), cb(a[2]))
-    if name in ('GetPCCM', 'Diagonalize', 'TplProp', 'TProp', 'TauProp', 'PeriodicInput', 'RemapInput', 'PropagatorAt'):
+    if name in ('GetPCCM', 'Diagonalize', 'TplProp', 'TProp', 'TauProp', 'AsPeriodicInput', 'PropagatorAt'):
         return name
     raise ValueError(op)
 
@@ -444,8 +482,9 @@ def alphabet(world, with_bad_user=False, small=False):
             ops.append(('GetCM', g, ci))
         ops.append(('CacheCM', g, None, False))
         ops.append(('CacheCM', g, None, True))
-        ops.append(('CacheCM', g, (True, False), False))
-        ops.append(('CacheCM', g, (True, True), False))
+        ops.append(('CacheCM', g, ('UOk', False), False))
+        ops.append(('CacheCM', g, ('UOk', True), False))
+        ops.append(('CacheCM', g, ('UShape', False), False))
         for w in ('Fidelity', 'Generalized'):
             for o in ('First', 'Second'):
                 if o == 'Second' and w == 'Generalized':
@@ -453,14 +492,18 @@ def alphabet(world, with_bad_user=False, small=False):
                 for ci in B:
                     ops.append(('GetFF', g, w, o, ci))
                 ops.append(('CacheFF', g, None, None, w, o, False))
-                ops.append(('CacheFF', g, None, (True), w, o, False))
-            ops.append(('CacheFF', g, (True, False), None, w, 'First', False))
-            ops.append(('CacheFF', g, (True, True), None, w, 'First', False))
+                ops.append(('CacheFF', g, None, 'UOk', w, o, False))
+            ops.append(('CacheFF', g, ('UOk', False), None, w, 'First', False))
+            ops.append(('CacheFF', g, ('UOk', True), None, w, 'First', False))
+        ops.append(('CacheFF', g, None, 'UShape', 'Fidelity', 'First', False))
+        ops.append(('CacheFF', g, ('UShape', False), None, 'Generalized', 'First', False))
+        ops.append(('CacheFF', g, ('UShape', False), None, 'Fidelity', 'Second', False))
+        ops.append(('CachePhases', g, 'UShape'))
         ops.append(('CacheFF', g, None, None, 'Fidelity', 'First', True))
         ops.append(('GetDeriv', g))
         ops.append(('GetPhases', g))
         ops.append(('CachePhases', g, None))
-        ops.append(('CachePhases', g, True))
+        ops.append(('CachePhases', g, 'UOk'))
         for ci in B:
             ops.append(('Infidelity', g, 'Total', ci))
         ops.append(('Infidelity', g, 'Correlations', False))
@@ -473,34 +516,47 @@ def alphabet(world, with_bad_user=False, small=False):
         ops.append(('ErrorTransferMatrix', g, False, False))
         ops.append(('ErrorTransferMatrix', g, True, True))
         ops.append(('InfidelityDerivative', g))
-        ops.append(('ConcatInput', g))
+        for last in B:
+            for missing in B:
+                ops.append(('AsConcatInput', g, last, False, missing))
         if world.pauli:
-            ops.append(('ExtendInput', g))
+            for diag in B:
+                ops.append(('AsExtendInput', g, diag, False))
         if with_bad_user:
-            ops.append(('CacheCM', g, (False, False), False))
-            ops.append(('CacheFF', g, None, False, 'Fidelity', 'First', False))
-            ops.append(('CachePhases', g, False))
+            ops.append(('CacheCM', g, ('UBad', False), False))
+            ops.append(('CacheFF', g, None, 'UBad', 'Fidelity', 'First', False))
+            ops.append(('CachePhases', g, 'UBad'))
+    for last in B:
+        for missing in B:
+            ops.append(('AsConcatInput', None, last, False, missing))
+    ops.append(('AsConcatInput', None, False, True, False))
+    ops.append(('AsConcatInput', 1, True, True, True))
+    if world.pauli:
+        for diag in B:
+            for allc in B:
+                ops.append(('AsExtendInput', None, diag, allc))
     ops += [('GetPCCM',), ('GetPCFF', 'Fidelity'), ('GetPCFF', 'Generalized'), ('Diagonalize',),
             ('LazyProp', 'S_eigvals'), ('LazyProp', 'S_propagators'), ('LazyProp', 'S_total_propagator'),
-            ('TplProp',), ('TProp',), ('TauProp',), ('PeriodicInput',), ('RemapInput',), ('PropagatorAt',), ('BadParams', 0)]
+            ('TplProp',), ('TProp',), ('TauProp',), ('AsPeriodicInput',), ('AsRemapInput', world.btype_pauli), ('PropagatorAt',),
+            ('BadParams', 0)]
     ops += [('Cleanup', m) for m in CLEANUP]
     if small:
         ops = []
         for g in range(3):
             ops += [('GetCM', g, True), ('GetFF', g, 'Fidelity', 'Second', False),
-                    ('GetFF', g, 'Generalized', 'First', False), ('CacheFF', g, None, True, 'Fidelity', 'First', False),
-                    ('CacheCM', g, (True, True), False), ('GetDeriv', g), ('GetPhases', g)]
+                    ('GetFF', g, 'Generalized', 'First', False), ('CacheFF', g, None, 'UOk', 'Fidelity', 'First', False),
+                    ('CacheCM', g, ('UOk', True), False), ('GetDeriv', g), ('GetPhases', g)]
         ops += [('Cleanup', m) for m in CLEANUP] + [('GetPCFF', 'Generalized'), ('LazyProp', 'S_eigvals')]
     return ops
 
 
 def op_ok(op):
     if op[0] == 'CacheCM':
-        return op[2] is None or op[2][0]
+        return op[2] is None or op[2][0] != 'UBad'
     if op[0] == 'CacheFF':
-        return (op[2] is None or op[2][0]) and (op[3] is None or op[3])
+        return (op[2] is None or op[2][0] != 'UBad') and (op[3] is None or op[3] != 'UBad')
     if op[0] == 'CachePhases':
-        return op[2] is None or op[2]
+        return op[2] is None or op[2] != 'UBad'
     return True
 
 
